@@ -1,8 +1,12 @@
-(* C06 — strict encoding rejects exactly the constraint-violating molecules. *)
+(* C06 — strict encoding rejects exactly the constraint-violating molecules.
+   The first theorem is about the stored bond counts; proofs/EncCount.v closes the gap to the property's wording: for
+   every input the reader and kekulize accept, the stored count of every atom IS the sum of the orders of its bonds
+   (C06_counts_are_bond_order_sums), so the strict check raises iff for some atom that sum exceeds the capacity minus
+   the explicit hydrogens (C06_strict_check_iff_bond_order_sum_over_capacity). *)
 From Coq Require Import String List ZArith NArith Bool.
 Import ListNotations.
 From Selfies Require Import Base Generated Atoms Grammar Decoder PySet Matching Smiles Kekulize Encoder
-  IndexSpec IndexCode Reader RoundTrip EncoderFacts PureFacts.
+  IndexSpec IndexCode Reader RoundTrip EncoderFacts PureFacts EncCount.
 Local Open Scope string_scope.
 
 (* the strict check raises iff some atom's bond count exceeds its capacity
@@ -23,6 +27,39 @@ Theorem C06_strict_depends_on_lookup_pointwise : forall f g, (forall e c, f e c 
   forall s strict attribute, encoder_c f s strict attribute = encoder_c g s strict attribute.
 Proof. exact encoder_c_ext. Qed.
 
+(* the stored counts are the bond-order sums: after the reader, and after kekulize (whose int() truncation of a count
+   is exact because every aromatic bond at that atom has been lowered by then).  tot m i = sum, in half units, over the
+   stored edges incident to atom i: the edges of row i, plus the chain edges of other rows that end at i. *)
+Theorem C06_counts_are_bond_order_sums : forall smiles attributable m0 m1,
+  smiles_to_mol smiles attributable = Ok m0 -> kekulize m0 = Ok (Some m1) ->
+  (forall i c, nth_error (m_counts2 m0) i = Some c -> c = tot m0 i) /\
+  (forall i c, nth_error (m_counts2 m1) i = Some c -> c = tot m1 i) /\ length (m_counts2 m1) = mg_len m1.
+Proof.
+  intros smiles attributable m0 m1 Ep Ek. destruct (parsed_kekulized_counts _ _ _ _ Ep Ek) as [[_ _ S0] [L1 A1 S1]].
+  split; [exact S0|]. split; [exact S1|congruence].
+Qed.
+
+(* the property's first clause, on the graph the strict check sees: under any table with a '?' entry, the check raises
+   EncoderError iff some atom's bond-order sum exceeds twice (capacity - explicit H), i.e. sum/2 + H > capacity; it
+   raises nothing else *)
+Theorem C06_strict_check_iff_bond_order_sum_over_capacity : forall T smiles attributable m0 m1,
+  (exists v, assoc (lit "?") T = Some v) ->
+  smiles_to_mol smiles attributable = Ok m0 -> kekulize m0 = Ok (Some m1) ->
+  (check_bond_constraints (get_bonding_capacity T) m1 = Err EncoderError <->
+   exists k a at_ cap, nth_error (m_atoms m1) k = Some (a, at_) /\ bonding_capacity T a = Ok cap /\ (2 * cap < tot m1 k)%Z).
+Proof. exact strict_check_iff_bond_sum. Qed.
+
+Example C06_bond_sum_example :
+  match smiles_to_mol (lit "c1ccccc1C(F)(F)(F)(F)F") false with
+  | Ok m0 => match kekulize m0 with
+             | Ok (Some m1) => (tot m0 0 =? 6)%Z && (tot m1 0 =? 6)%Z && (tot m1 6 =? 12)%Z &&
+                               match check_bond_constraints (get_bonding_capacity default_constraints) m1 with Err EncoderError => true | _ => false end
+             | _ => false end
+  | Err _ => false end = true.
+Proof. vm_compute. reflexivity. Qed.
+
 Print Assumptions C06_strict_check_iff_over_capacity.
+Print Assumptions C06_counts_are_bond_order_sums.
+Print Assumptions C06_strict_check_iff_bond_order_sum_over_capacity.
 Print Assumptions C06_nonstrict_ignores_table.
 Print Assumptions C06_strict_depends_on_lookup_pointwise.
